@@ -172,11 +172,24 @@ func linesWith(d []string, prefixes ...string) []string {
 // ---------- C03 ----------
 
 func monC03(tr *Trace, br map[string]int) (out []Violation) {
+	// the delegation in force per validator spelling, as the history of accepted consents says (not as the store says)
+	ref := map[string]string{}
 	walk(tr, func(c *ctxStep) {
 		if c.op[0] != "tx" {
 			return
 		}
 		t := parseTx(c.op)
+		if c.res[0] == "ok" {
+			for _, m := range t.msgs {
+				if m.kind == "consent" && len(m.args) >= 2 {
+					v, f := m.args[0], strings.ToLower(m.args[1])
+					ref[v] = f
+					if got := c.post.Feeders[v]; got != f {
+						out = append(out, viol("C03", "consent-not-in-force", c.i, "accepted consent of %s names feeder %s, the delegation in force afterwards is %q", v, f, got))
+					}
+				}
+			}
+		}
 		for v := 0; v < 5; v++ {
 			vt := fmt.Sprintf("v%d", v)
 			VT := fmt.Sprintf("V%d", v)
@@ -186,6 +199,9 @@ func monC03(tr *Trace, br map[string]int) (out []Violation) {
 			feeder := op
 			if f, ok := c.pre.Feeders[vt]; ok {
 				feeder = f
+			}
+			if f, ok := ref[vt]; ok {
+				feeder = f // the last accepted consent decides, whatever the store holds
 			}
 			if changedDeleg {
 				br["c03:delegation-changed"]++
@@ -309,13 +325,49 @@ func gasOf(m *mexpr) uint64 {
 var one18 = new(big.Int).Exp(big.NewInt(10), big.NewInt(18), nil)
 
 // gas prices of the default parameters, sorted by denom as the chain stores them: setl 0.0001, uusdc 1.
-var gasPrices = []struct {
+var defaultGasPrices = []struct {
 	denom string
 	num   *big.Int // price * 10^18
 }{{"setl", new(big.Int).Exp(big.NewInt(10), big.NewInt(14), nil)}, {"uusdc", new(big.Int).Set(one18)}}
 
+type gasPrice struct {
+	denom string
+	num   *big.Int // price * 10^18
+}
+
+// dec18 reads a decimal with at most 18 fractional digits as its numerator over 10^18.
+func dec18(s string) *big.Int {
+	ip, fp := s, ""
+	if i := strings.IndexByte(s, '.'); i >= 0 {
+		ip, fp = s[:i], s[i+1:]
+	}
+	for len(fp) < 18 {
+		fp += "0"
+	}
+	n, _ := new(big.Int).SetString(ip+fp[:18], 10)
+	if n == nil {
+		n = big.NewInt(0)
+	}
+	return n
+}
+
 func monC16(tr *Trace, br map[string]int) (out []Violation) {
+	var gasPrices []gasPrice
+	for _, gp := range defaultGasPrices {
+		gasPrices = append(gasPrices, gasPrice{gp.denom, gp.num})
+	}
 	walk(tr, func(c *ctxStep) {
+		if c.op[0] == "setprices" && len(c.op) > 1 && c.res[0] == "ok" {
+			// governance changed the settlement gas prices: the list is kept in denomination order
+			gasPrices = nil
+			for _, kvp := range strings.Split(c.op[1], ",") {
+				kv := strings.SplitN(kvp, ":", 2)
+				gasPrices = append(gasPrices, gasPrice{kv[0], dec18(kv[1])})
+			}
+			sort.Slice(gasPrices, func(i, j int) bool { return gasPrices[i].denom < gasPrices[j].denom })
+			br["c16:prices-changed"]++
+			return
+		}
 		if c.op[0] != "tx" {
 			return
 		}
